@@ -323,6 +323,7 @@ def oracle(ctx, deep):
             ctx.violation('C20:atom-row', f'Atom.for_isotope({name!r}) differs from the table rows',
                           {'name': name, 'got': got, 'expected': exp})
     _oracle_history(ctx, scat, wmap, mmap, deep)
+    _oracle_att_history(ctx, deep)
     valid_atom = set(wmap) | set(mmap)
     valid_scat = {r[0] for r in scat}
     nm = near_misses(ctx.rng, sorted(valid_atom | valid_scat), 3000 if deep else ctx.n(150, 1500))
@@ -378,6 +379,81 @@ def oracle(ctx, deep):
         if abs(v - exact) > tol * abs(exact):
             ctx.violation('C20:attenuation-law', 'attenuation coefficient differs from n*(sigma_s + sigma_a*lambda/1.7982A)',
                           {**c, 'got_per_m': float(v), 'expected_per_m': float(exact)})
+
+
+def _att_history_violation(steps):
+    """One Material object through a history: [('eval', case) | ('set', case)] — `set` re-assigns density and
+    scattering parameters of the SAME object to those of `case`, `eval` evaluates it at that case's wavelength.
+    Returns (index, got, expected) of the first evaluation that differs from the law for the CURRENT fields."""
+    import scipp as sc
+    from scippneutron.absorption.material import Material
+    from scippneutron.atoms import ScatteringParams
+
+    def params(c):
+        return ScatteringParams(isotope='X', total_scattering_cross_section=sc.scalar(c['sig_s'], unit=c['u_s']),
+                                absorption_cross_section=sc.scalar(c['sig_a'], unit=c['u_a']))
+
+    m = None
+    cur = None
+    for i, (op, c) in enumerate(steps):
+        if op == 'set' or m is None:
+            if m is None:
+                m = Material(scattering_params=params(c), effective_sample_number_density=sc.scalar(c['n'], unit=c['u_n']))
+            else:
+                which = c.get('which', 'both')
+                if which in ('both', 'density'):
+                    m.effective_sample_number_density = sc.scalar(c['n'], unit=c['u_n'])
+                if which in ('both', 'params'):
+                    m.scattering_params = params(c)
+                c = {**c, **({} if which in ('both', 'density') else {k: cur[k] for k in ('n', 'u_n')}),
+                     **({} if which in ('both', 'params') else {k: cur[k] for k in ('sig_s', 'sig_a', 'u_s', 'u_a')})}
+            cur = c
+            if op == 'set':
+                continue
+        e = {**cur, 'lam': c['lam'], 'u_l': c['u_l'], 'dt': c.get('dt', 'float64')}
+        r = m.attenuation_coefficient(sc.scalar(e['lam'], unit=e['u_l'], dtype=e['dt']))
+        try:
+            v = Fraction(float(sc.to_unit(r, '1/m').value))
+        except Exception:  # noqa: BLE001
+            return i, repr(r.unit), 'an inverse length'
+        exact = _exact_attenuation(e)
+        tol = Fraction(1, 10**11) if str(r.dtype) == 'float64' else Fraction(1, 10**5)
+        if abs(v - exact) > tol * abs(exact):
+            return i, float(v), float(exact)
+    return None
+
+
+def _oracle_att_history(ctx, deep):
+    """The law holds for the material as it is NOW: the same Material object evaluated at several wavelengths
+    (units, dtypes), with its density and/or scattering parameters re-assigned in between (refining a density,
+    swapping the isotope), and evaluated again."""
+    rng = ctx.rng
+    for k in range(300 if deep else ctx.n(80, 1500)):
+        cs = list(_att_cases(ctx, rng.randint(3, 6)))
+        steps = [('eval', cs[0])]
+        for c in cs[1:]:
+            if rng.random() < 0.6:
+                c = {**c, 'which': rng.choice(['both', 'density', 'params'])}
+                steps.append(('set', c))
+            steps.append(('eval', c))
+        ctx.case(('oracle-att-history', k, len(steps)), True)
+        ctx.count('att-history:' + ''.join(op[0] for op, _ in steps))
+        bad = _att_history_violation(steps)
+        if bad is not None:
+            # shrink: drop steps while the failure persists
+            changed = True
+            while changed:
+                changed = False
+                for j in range(len(steps)):
+                    t = steps[:j] + steps[j + 1:]
+                    if t and t[0][0] == 'eval' and _att_history_violation(t) is not None:
+                        steps, changed = t, True
+                        break
+            bad = _att_history_violation(steps)
+            ctx.violation('C20:attenuation-depends-on-history',
+                          f'attenuation coefficient of a Material object differs from the law for its current fields at step {bad[0]} '
+                          f'of a history of evaluations and field re-assignments: got {bad[1]} 1/m, expected {bad[2]} 1/m',
+                          {'steps': [[op, c] for op, c in steps]})
 
 
 def _mutate(v, how):
@@ -489,6 +565,8 @@ def replay(ctx, payload):
         return _impl_scat(w['name']) != first
     if key == 'C20:near-miss-accepted':
         return isinstance(_impl_atom(w['name']), tuple) or isinstance(_impl_scat(w['name']), tuple)
+    if key == 'C20:attenuation-depends-on-history':
+        return _att_history_violation([(op, c) for op, c in w['steps']]) is not None
     if key.startswith('C20:attenuation'):
         import scipp as sc
 
